@@ -510,6 +510,65 @@ def check_C17(c):
                          "coverage is reported, and only used to reject a broken measurement (<40%)"]
 
 
+def check_C19(c):
+    q = c.quick
+    runs = [("float64", 400 if q else 4000, 60 if q else 200), ("int", 200 if q else 2000, 60 if q else 200)]
+    if not q:
+        runs.append(("float32", 1000, 120))
+    outdir = os.path.join(OUT, c.pid)
+    traces_total = 0
+    for i, (dt, traces, steps) in enumerate(runs):
+        seed = c.seed * 7 + i + 1
+        events, states, mm, tr = record_and_validate(c.scr, "c19-%s" % dt, seed, traces, steps, dtype=dt)
+        c.rep.states += states
+        c.rep.transitions += events
+        c.rep.execs += traces
+        c.rep.calls += events
+        c.rep.compared += events
+        c.rep.nontrivial += traces
+        traces_total += traces
+        c.rep.parts.append({"trace_run": dt, "seed": seed, "traces": traces, "events": events, "tlc_states": states,
+                            "accepted": mm is None})
+        log("trace run %s seed %d: %d traces, %d events, %s" % (dt, seed, traces, events, "accepted" if mm is None else "REJECTED at line %d" % mm["line"]))
+        if not c.rep.samples:
+            with open(tr) as f:
+                c.rep.samples = [json.loads(next(f)) for _ in range(4)][1:]
+        if mm:
+            ops, ev, window = trace_context(tr, mm["line"])
+            os.makedirs(outdir, exist_ok=True)
+            keep = os.path.join(c.scr.path("keep-%s.json" % dt))
+            rec = {"cmd": "record", "seed": seed, "traces": traces, "steps": steps, "dtype": dt, "line": mm["line"], "events": window,
+                   "div": {"case": "trace", "fam": "trace", "dt": dt, "pal": "interp", "cfg": "default", "step": len(ops),
+                           "op": ev["op"]["k"], "kind": "trace-mismatch" if not ev.get("note") else "trace-anomaly",
+                           "detail": (ev.get("note") or "") + " | TLC: " + mm["detail"], "path": "; ".join(ops + ["%s(h%d,%s)" % (ev["op"]["k"], ev["op"]["h"], json.dumps(ev["op"]["a"]))]),
+                           "tags": []},
+                   "case": {"trace": "see events"}}
+            c.rep.divs.append(rec)
+    # direction A: the caller-slice watch and the every-live-tensor comparison also run on TLC-generated behaviours
+    k = dict(MinRank=1, MaxRank=3, MaxDim=3, MaxDimHi=2, HiRank=3, Ctors={S("C")}, MaxLen=3 if not q else 2, WithSlice=False, PermPalette=True,
+             Alphabet={S(x) for x in ("T", "UT", "Transpose", "SafeT", "RollAxis")}, BothTargets=False)
+    cases = c.tlc("MC_trans", "hist-trans", k, ["TypeOK", "Emit"])
+    c.replay("hist-trans", cases, dtypes="float64,int8", pals="ident", rotate=1 if q else 0)
+    k = dict(MinRank=1, MaxRank=3, MaxDim=3, MaxDimHi=2, HiRank=3, LayA={S("C"), S("T"), S("Col")}, Kinds={S("Reduce"), S("Arg")})
+    cases = c.tlc("MC_reduce", "hist-reduce", k, ["TypeOK", "Emit"])
+    c.replay("hist-reduce", cases, dtypes="float64", pals="ident", extra=["-ops", "all"])
+    k = dict(MaxDim=2, MaxRankT=3, LayA={S("C")}, LayB={S("C")}, Modes={S("safe")}, Kinds={S("TensorMul")})
+    cases = c.tlc("MC_linalg", "hist-tensormul", k, ["TypeOK", "Emit"])
+    c.replay("hist-tensormul", cases, dtypes="float64", pals="ident", extra=["-entries", "func,method"])
+    c.rep.exhaustive = False
+    c.rep.rule = ("direction B (trace validation): a seeded recorder runs random programs of up to 60 (thorough 200) operations over a "
+                  "population of 2-8 live tensors on the real library - construction, slicing, lazy/physical transposes, reshape, "
+                  "arithmetic/unary/comparison with safe/unsafe/reuse/incr, reductions, products, concat/stack/repeat, copies, ReturnTensor "
+                  "and pool churn by a foreign user that scribbles over borrowed int slices - and logs after EVERY call the observation of "
+                  "EVERY live tensor, every caller backing, every caller-owned argument slice and the pool hook events; TLC checks each "
+                  "log against spec/Trace.tla (the same Apply as all other configurations, value terms evaluated by Interp.tla) line by "
+                  "line, incl. the pool protocol (no slice returned twice). direction A: caller-owned argument slices are watched over "
+                  "whole TLC-generated behaviours of the transposition, reduction and contraction families")
+    c.rep.assumptions = ["the recorder does not generate the inputs of listed findings (see known_findings.json) nor overlapping source/destination pairs",
+                         "use of a tensor after handing it to ReturnTensor is a caller error and never generated",
+                         "values stay below 2^31 (TLC integers)"]
+
+
 def mask_consts(q, mode):
     suffix = "-q" if q else "-t"
     if mode == "iter":
@@ -568,7 +627,7 @@ def check_C05(c):
     c.rep.assumptions = ["Coord() after exhaustion is not specified and not compared", "the masked multi-iterator's validity stepping is outside the statement"]
 
 
-CHECKS = {"C01": check_C01, "C02": check_C02, "C03": check_C03, "C04": check_C04, "C13": check_C13, "C06": check_C06, "C07": check_C07, "C11": check_C11, "C12": check_C12, "C08": check_C08, "C09": check_C09, "C10": check_C10, "C05": check_C05, "C15": check_C15, "C14": check_C14, "C16": check_C16, "C20": check_C20, "C17": check_C17}
+CHECKS = {"C01": check_C01, "C02": check_C02, "C03": check_C03, "C04": check_C04, "C13": check_C13, "C06": check_C06, "C07": check_C07, "C11": check_C11, "C12": check_C12, "C08": check_C08, "C09": check_C09, "C10": check_C10, "C05": check_C05, "C15": check_C15, "C14": check_C14, "C16": check_C16, "C20": check_C20, "C17": check_C17, "C19": check_C19}
 
 HOOK_COMMITS = []
 NOT_YET = {}
@@ -641,6 +700,10 @@ LEVELS = {
             "technique": "TLC evaluates the operation terms itself over the integers (Interp.tla, MC_interp); replay for every element type; measured function coverage of the generated sources",
             "text": "bounded exhaustive model checking: one integer interpretation of every operation family and kernel variant, computed by TLC, must be delivered by every element type that can represent it; exhaustiveness over the generated kernels is measured as function coverage (go build -cover) and written to the evidence",
             "note": "palette of small positive integers exactly representable in all numeric types; bounded shapes"},
+    "C19": {"ref": "DESIGN.md 4 C19",
+            "technique": "trace validation: random operation histories recorded from the real library (every live tensor observed after every call, pool hooks, caller slices) checked by TLC against spec/Trace.tla",
+            "text": "model checking of recorded behaviours: every line of every recorded history must be a step of the specification and the observation of ALL live tensors must equal the specification's state, so a corruption of a tensor other than the destination, of a caller's slice, or a pool double-return is rejected at the line where it happens",
+            "note": "randomised histories (seeded), not exhaustive; integer-valued data; inputs of listed findings are not generated"},
     "C01": {"ref": "DESIGN.md 4 C01",
             "technique": "TLC-enumerated behaviours of the TLA+ tensor machine (MC_addr) replayed on the real library",
             "text": "bounded exhaustive model checking: TLC enumerates every shape/constructor/layout in bounds and the complete coordinate->cell table of each; every table entry is executed (At and SetAt) on the real tensor for every element type, with a full snapshot of all storage around each write",
